@@ -153,6 +153,11 @@ def check(run, replay=None):
         run.programs = len(c.progs)
     finally:
         c.cleanup()
+    if not replay:
+        # both chains of the differential run share the generated `impl cw_multi_test::Contract`; what each of its six
+        # operations decodes / which registered override it calls is examined on the expansion itself
+        from . import mtimpl
+        mtimpl.run_cases(run, mtimpl.sample_cases(rng, 64 if thorough else 24), "c12mt")
     if replay:
         print("replayed seed=%s tier=%s: %d oracle failure(s)" % (run.seed, run.tier, len(run.oracle_failures)))
         return 1 if run.oracle_failures else 0
